@@ -504,6 +504,7 @@ fn kind_tag(k: &FailKind) -> &'static str {
         FailKind::Condition => "condition",
         FailKind::Chain => "chain",
         FailKind::Depth => "depth",
+        FailKind::Macro => "macro",
     }
 }
 
